@@ -148,7 +148,7 @@ def run_program(text, optargs):
             err = type(e).__name__
     if err is not None:
         from propka.lib import loadOptions
-        return err, loadOptions(list(optargs) + ["prog.pdb"]), [], "-", None
+        return err, loadOptions(list(optargs) + ["prog.pdb"]), [], "-", None, None
     if rec.pipes_skipped or len(rec.pipes) != len(mol.conformation_names):
         return None
     if [p[0] for p in rec.pipes] != list(mol.conformation_names):
@@ -163,10 +163,56 @@ def run_program(text, optargs):
             avr.append("|".join([hx(g.label), hx(g.type), str(common.bits(float(g.pka_value))), str(common.bits(float(g.num_volume))),
                                  str(common.bits(float(g.energy_volume))), str(common.bits(float(g.energy_local))), str(common.bits(float(g.buried))),
                                  d("sidechain"), d("backbone"), d("coulomb")]))
-    return None, mol.options, [(p[0], p[5], p[6]) for p in rec.pipes], rec.pipes[0][2] if rec.pipes else "-", avr
+    txt = None
+    if avr is not None:
+        import propka.output as PO
+        P = mol.version.parameters
+        det = PO.get_determinant_section(mol, "AVR", P)
+        head = "%s\n" % PO.get_determinants_header()
+        if det.startswith(head):
+            rows = det[len(head):]
+            k = rows.find("Coupled residues (marked *) were detected.")
+            if k >= 0:
+                rows = rows[:k]
+            # the star of a coupled group is the coupling search's (a model of its own): blanked for this comparison
+            rows = "\n".join((l[:16] + " " + l[17:]) if len(l) > 16 and l[16] == "*" else l for l in rows.split("\n"))
+            summ = PO.get_summary_section(mol, "AVR", P)
+            shead = "%s\n" % PO.get_summary_header()
+            if summ.startswith(shead):
+                txt = (rows, summ[len(shead):])
+    return None, mol.options, [(p[0], p[5], p[6]) for p in rec.pipes], rec.pipes[0][2] if rec.pipes else "-", avr, txt
 
 
 AVR_COMPARED = [0]
+TXT_COMPARED = [0]
+
+
+def table_diffs(real, model):
+    """the rows of the determinant table: the same blocks in the same order, each with the same number of lines and the same first
+    40 columns (label, pKa, buried, desolvation terms); the entries of a determinant column of a block as a multiset (the search for
+    coupled groups re-orders a list when it swaps and swaps back)"""
+    def blocks(t):
+        out = []
+        for b in t.split("\n\n"):
+            ls = [l for l in b.split("\n") if l]
+            if ls:
+                out.append(ls)
+        return out
+    rb, mb = blocks(real), blocks(model)
+    if len(rb) != len(mb):
+        return "%d blocks, model %d" % (len(rb), len(mb))
+    for x, y in zip(rb, mb):
+        if len(x) != len(y):
+            return "block %r has %d lines, model %d" % (x[0][:9], len(x), len(y))
+        if [l[:49] for l in x] != [l[:49] for l in y]:
+            k = next(i for i, (a, b) in enumerate(zip(x, y)) if a[:49] != b[:49])
+            return "block %r line %d: %r, model %r" % (x[0][:9], k, x[k][:49], y[k][:49])
+        for c in range(3):
+            fa = sorted(l[49 + 18 * c: 67 + 18 * c] for l in x)
+            fb = sorted(l[49 + 18 * c: 67 + 18 * c] for l in y)
+            if fa != fb or any(len(l) != 49 + 54 for l in x + y):
+                return "block %r column %d: %r, model %r" % (x[0][:9], c, fa[:3], fb[:3])
+    return ""
 
 
 def avr_diffs(real, model, tol=1e-9):
@@ -207,15 +253,15 @@ def check_program(cases, tol=1e-9):
         if r is None:
             outside += 1
             continue
-        err, options, confs, rp, avr = r
+        err, options, confs, rp, avr, txt = r
         reqs.append(program_request(text, options, rp))
-        todo.append((tag, err, confs, avr))
+        todo.append((tag, err, confs, avr, txt))
     if not reqs:
         return 0, 0, 0, outside, []
     outs = common.driver_batch(reqs)
     bad, nconf, nerr = [], 0, 0
     AVF = ["label", "type", "pka_value", "num_volume", "energy_volume", "energy_local", "buried", "sidechain", "backbone", "coulomb"]
-    for (tag, err, confs, avr), resp in zip(todo, outs):
+    for (tag, err, confs, avr, txt), resp in zip(todo, outs):
         if err is not None or resp.startswith("err:"):
             if resp != "err:%s" % err:
                 bad.append((tag, ["the program raised %s, the model answered %s" % (err, resp[:60])]))
@@ -226,7 +272,9 @@ def check_program(cases, tol=1e-9):
             bad.append((tag, ["the model answered " + resp]))
             continue
         parts = resp.split("&")
-        mavr = None
+        mavr, mtxt = None, None
+        if parts and parts[-1].startswith("TXT@"):
+            mtxt = parts.pop()[4:]
         if parts and parts[-1].startswith("AVR@"):
             mavr = parts.pop()[4:]
         names = [x.split("@", 1)[0] for x in parts]
@@ -259,6 +307,20 @@ def check_program(cases, tol=1e-9):
                 d = avr_diffs(avr, ma)
                 if d:
                     bad.append((tag, ["AVR: %s" % x for x in d[:3]]))
+                    continue
+            # the determinant table and the summary of the .pka file, character by character (stars blanked)
+            if txt is not None and mtxt is not None and mtxt != "-#-":
+                TXT_COMPARED[0] += 1
+                md, ms = [unhex(x) for x in mtxt.split("#")]
+                if txt[1] != ms:
+                    rl, ml = txt[1].split("\n"), ms.split("\n")
+                    k = next((i for i, (a, b) in enumerate(zip(rl, ml)) if a != b), min(len(rl), len(ml)))
+                    bad.append((tag, ["summary of the .pka file: %d lines, model %d; line %d %r, model %r" % (
+                        len(rl), len(ml), k, rl[k] if k < len(rl) else None, ml[k] if k < len(ml) else None)]))
+                    continue
+                d = table_diffs(txt[0], md)
+                if d:
+                    bad.append((tag, ["determinant table of the .pka file: " + d]))
     return len(reqs), nconf, nerr, outside, bad
 
 
@@ -316,13 +378,14 @@ def program_tie(ctx, what, extra=()):
     ctx.count("program: conformations compared (atoms, hydrogens, groups, records)", nconf)
     ctx.count("program: rejected inputs on which both agree (error class)", nerr)
     ctx.count("program: average conformations compared (every reported group in order; numbers to 1e-9; determinants per kind as sets of label and value)", AVR_COMPARED[0])
+    ctx.count("program: .pka determinant tables and summaries compared (summary character by character; table block by block, determinant columns as multisets, stars blanked)", TXT_COMPARED[0])
     ctx.count("program: texts outside the model (other parameter files, non-latin-1 text)", outside)
     ctx.count("program: texts with options -k / --protonate-all / -c / --titrate_only",
               sum(1 for c in cases if any(a in ("-k", "--protonate-all", "-c", "--titrate_only") or a.startswith("--titrate_only") for a in c[2])))
     ctx.oblige("correspondence: the program as one Lean function (Program.run: parser, read_pdb, top-up, bonding, SYBYL typing, protonation, "
-               "group extraction and set-up, sort_atoms, covalent coupling, scoring, average_of_conformations) = the real program from the PDB text on %d texts of %s "
+               "group extraction and set-up, sort_atoms, covalent coupling, scoring, average_of_conformations, the determinant and summary sections of the .pka file) = the real program from the PDB text on %d texts of %s "
                "(%d conformations: every atom incl. built hydrogens bit for bit, every group, every determinant and pKa to 1e-9; the average conformation "
-               "group by group; %d rejected "
+               "group by group; the summary of the .pka file character by character and its determinant table block by block; %d rejected "
                "inputs with the same error class)" % (n, what, nconf, nerr),
                not bad, "; ".join("%s: %s" % (t[:60], "; ".join(d[:2])) for t, d in bad[:2])[:700])
     for t, d in bad[:1]:
